@@ -468,7 +468,9 @@ impl Default for WorldCfg {
 pub fn accounts(cfg: &WorldCfg) -> BoxedStrategy<Vec<AccountSpec>> {
     let pc = cfg.prog.clone();
     let eoas = prop::collection::vec(
-        (prop_oneof![8 => Just(eth(1_000_000)), 1 => balance()], prop_oneof![4 => Just(0u64), 2 => 1u64..10, 1 => Just(u64::MAX - 1)], prop::option::weighted(0.08, 4u8..10)),
+        // code of a sender slot: none (usual), an EIP-7702 delegation (Prague+), or real contract code (EIP-3607: such a
+        // sender is rejected; encoded as index 255)
+        (prop_oneof![8 => Just(eth(1_000_000)), 1 => balance()], prop_oneof![4 => Just(0u64), 2 => 1u64..10, 1 => Just(u64::MAX - 1)], prop_oneof![44 => Just(None), 4 => (4u8..10).prop_map(Some), 1 => Just(Some(255u8))]),
         N_EOA as usize,
     );
     let contracts = prop::collection::vec((contract_code(&pc, pc.depth), balance(), prop_oneof![3 => Just(1u64), 1 => Just(0u64), 1 => 2u64..5, 1 => Just(u64::MAX - 1), 1 => Just(u64::MAX)], storage_entries()), cfg.n_contracts.clone());
@@ -483,7 +485,12 @@ pub fn accounts(cfg: &WorldCfg) -> BoxedStrategy<Vec<AccountSpec>> {
         .prop_map(|(eoas, contracts, (empties, whale, cb, derived, pc_bal))| {
             let mut v = vec![];
             for (i, (balance, nonce, deleg)) in eoas.into_iter().enumerate() {
-                v.push(AccountSpec { addr: i as u8, balance, nonce, code: deleg.map(Code::Delegation).unwrap_or(Code::None), storage: vec![] });
+                let code = match deleg {
+                None => Code::None,
+                Some(255) => Code::Raw(vec![0x00]),
+                Some(d) => Code::Delegation(d),
+            };
+            v.push(AccountSpec { addr: i as u8, balance, nonce, code, storage: vec![] });
             }
             for (i, (code, balance, nonce, storage)) in contracts.into_iter().enumerate() {
                 v.push(AccountSpec { addr: IDX_CONTRACT0 + i as u8, balance, nonce, code, storage });
